@@ -176,6 +176,23 @@ func TestC11Numbers(t *testing.T) {
 					return violation("C11", "round-trip", "", "StringToNote(%q) = %d, %v; want %d", spelled, back, err, n)
 				}
 			}
+			// the same conversion as a configuration file goes through it: a key mapped to the number or the name
+			for _, spelled := range []string{fmt.Sprint(n), name, strings.ToLower(name), fmt.Sprintf("%03d", n), fmt.Sprintf("%04d", n)} {
+				dd := &Desc{Mode: "off", Exit: []uint16{}, Channel: 1, Velocity: 64, DefMapping: "M", Colors: colorPalette,
+					Mappings: []MappingDef{{Name: "M", KeySubs: []string{""}, Keys: []KeyDef{{Code: 30, Note: n, RawValue: strp(spelled)}}}}}
+				cfg, err := config.ParseData([]byte(RenderTOML(dd, nil)))
+				padded := len(spelled) > 1 && spelled[0] == '0' && spelled[1] >= '0' && spelled[1] <= '9'
+				if err != nil {
+					if padded {
+						continue // whether a number with leading zeros must be accepted is not specified
+					}
+					return violation("C11", "config-round-trip", "rejected", "a key mapped to %q (note %d) is rejected: %v", spelled, n, err)
+				}
+				got, ok := cfg.KeyMappings[0].Midi[""][30]
+				if !ok || int(got.Note) != n {
+					return violation("C11", "config-round-trip", "value", "a key mapped to %q in a configuration file becomes note %d, want %d", spelled, got.Note, n)
+				}
+			}
 			for _, typ := range []uint8{midi.NoteOn, midi.NoteOff} {
 				str := midi.NoteEvent(typ, 3, byte(n), 100).String()
 				want := fmt.Sprintf("%-2s%2d", p, o)
